@@ -1156,6 +1156,44 @@ impl Transport {
     }
 }
 
+/// Verification hooks: occupancy of the single-slot transport resources.
+#[cfg(feature = "verif")]
+#[derive(Debug, Clone, Copy, PartialEq, Eq)]
+pub struct VerifSlots {
+    /// The RX buffer is locked by somebody, or holds a packet
+    pub rx_occupied: bool,
+    /// The TX buffer is locked by somebody, or holds a packet
+    pub tx_occupied: bool,
+    /// The mDNS resolve rendezvous is idle
+    pub resolve_idle: bool,
+    /// The mDNS browse rendezvous is idle
+    pub browse_idle: bool,
+}
+
+#[cfg(feature = "verif")]
+impl Transport {
+    pub fn verif_slots(&self) -> VerifSlots {
+        VerifSlots {
+            rx_occupied: self
+                .rx
+                .try_lock()
+                .map(|p| !p.buf.is_empty())
+                .unwrap_or(true),
+            tx_occupied: self
+                .tx
+                .try_lock()
+                .map(|p| !p.buf.is_empty())
+                .unwrap_or(true),
+            resolve_idle: self
+                .mdns_resolve
+                .modify(|state| (false, matches!(state, MdnsResolveState::Idle))),
+            browse_idle: self
+                .mdns_browse
+                .modify(|state| (false, matches!(state, MdnsBrowseState::Idle))),
+        }
+    }
+}
+
 /// Which transport a freshly established operational session should run over.
 #[derive(Debug, Clone, Copy, PartialEq, Eq, Default)]
 #[cfg_attr(feature = "defmt", derive(defmt::Format))]
